@@ -136,7 +136,7 @@ PROPS = {
         unreached=["FormattedMakeWriterEntryIoStream (tracing-subscriber MakeWriter)"],
     ),
     "C10": dict(
-        verus=[("aggregator", {}), ("agg_value", {}), ("worker", {}), ("mutexsink", {}), ("aggsinks", {})],
+        verus=[("aggregator", {}), ("agg_value", {}), ("worker", {}), ("mutexsink", {}), ("aggsinks", {}), ("workersend", {})],
         technique="Verus contracts on the real KeyedAggregator::{get_or_create_accum, merge, merge_ref, flush} over a ghost-map model of hashbrown's raw-entry API and drain, and on every per-field aggregation strategy's insert (Sum, KeepLast, MergeOptions, CopyWrapper, Flatten, Distribution)",
         level_text="Deductive proof (Verus/z3) for every storage state and every input: (keyed aggregator) a merged input lands in exactly one aggregate - the one stored under the key the input itself yields, created empty on first use - "
                    "appended to what that aggregate already held, every other aggregate and key untouched; flush emits, for every key held, that key's closed aggregate under its closed key and leaves the storage empty (any number of keys). "
@@ -144,17 +144,18 @@ PROPS = {
                    "distribution: the input is added to the histogram (what that records: C11). Lemmas lift the step to any input sequence (sum of u64 inputs, keep-last). "
                    "(worker sink) the body of the worker thread (the closure handed to thread::spawn, sliced out mechanically) merges every queued entry, answers a flush request only after a flush, and - once the channel reports every handle gone - "
                    "flushes one last time and returns without ever polling the channel again. "
-                   "(mutex sink) MutexSink::merge hands every entry to the inner sink's merge (it blocks on the lock and never skips an entry). "
+                   "(mutex sink) MutexSink::merge hands every entry to the inner sink's merge (it blocks on the lock and never skips an entry) and MutexSink::close emits what the shared aggregate holds at that moment (never a fresh, empty one). "
                    "(sinks and guards) MergeOnDrop / CloseAndMergeOnDrop hand the value they hold (closed, for the latter) to the target sink when dropped and hold none afterwards; the tee hands every entry to both sinks and flushes both; "
                    "the non-aggregating sink appends the entry, rooted; the embedded Aggregate<T> merges every input (closed by insert) into its one accumulator. "
-                   "NOT decided: MutexSink::close, cross-thread ordering of sends, the generated Merge / Key impls (proc macro).",
+                   "WorkerSink's producer side: send / merge put exactly the entry on the channel (one send), flush sends one request carrying the sender half of the channel it then waits on. "
+                   "NOT decided: cross-thread ordering of sends, the generated Merge / Key impls (proc macro).",
         level_note="Trusted: Verus + z3; hashbrown's raw-entry API (from_hash with the equality closure, into_mut, insert_hashed_nocheck) and drain as a ghost map keyed by the key's abstract text (drain yields every pair exactly once); "
                    "std::sync::Mutex as a stand-in (lock returns Ok - no poisoning - and its guard dereferences to the protected sink; try_lock may fail); the Merge / Key / CloseValue / EntrySink trait contracts; `append` is witnessed by a predicate (one call per drained pair, not a multiplicity count). Type-level deviation: the stand-in `Key` trait's GAT is declared `'static` "
                    "(this Verus' lifetime pass loses the 'static argument; lifetimes have no logical content). R3b, closure contract on the equality closure.",
         explanation="keyed aggregation: key selection, per-field strategies, flush",
         assumptions=["generated Merge / Key impls meet the trait contracts (static_key_matches compares the key text, merge appends the input)",
                      "hashbrown raw-entry / drain behave as a map keyed by key equality"],
-        unreached=["WorkerSink::send / flush (channel sends)", "generated Merge / Key impls (metrique-macro aggregate.rs)", "Aggregate::insert_and_send_to"],
+        unreached=["generated Merge / Key impls (metrique-macro aggregate.rs)", "Aggregate::insert_and_send_to"],
     ),
     "C11": dict(
         verus=[("hist", {}), ("hist_shared", {}), ("hist_exp", {})],
